@@ -194,6 +194,10 @@ def job_init(module, fn):
         init()
 
 
+def determinism_selftest_init(module, fn):
+    job_init(module, fn)
+
+
 def job(arg):
     kind, params, bound, use_hash, prefix, max_exec, deadline = arg
     ex = Explorer(_CFG["scenario"], params, bound, use_hash, max_exec, deadline)
@@ -204,12 +208,36 @@ def job(arg):
     return ("sub", params, None, ex.stats, dict(ex.viol_sigs))
 
 
+def determinism_selftest(arg):
+    """the same schedule executed twice on fresh worlds must give identical observations (choice points offered,
+    outcome, steps, verdicts); otherwise a source of nondeterminism is not owned and nothing the check says can be trusted"""
+    params, bound = arg
+    scenario = _CFG["scenario"]
+    ex = Explorer(scenario, params, bound)
+    prefixes = ex.first_level()
+    schedules = [[]] + ([prefixes[len(prefixes) // 2]] if prefixes else [])
+    for sched in schedules:
+        obs = []
+        for _ in range(2):
+            ch = replay_choices(scenario, params, sched)
+            obs.append((len(ch.choices), [len(o) for o in ch.points], repr(ch.outcome), ch.steps, sorted(ch.found)))
+        if obs[0] != obs[1]:
+            return "schedule %r of params %r: %r vs %r" % (sched, params, obs[0], obs[1])
+    return None
+
+
 def explore_all(module, fn, params_list, bound, use_hash=False, max_exec_per_job=None, time_budget=None, jobs=None):
     """explore every params x every choice sequence of cost <= bound.
 
     work split: one root job per params (default run + enumeration of first
     deviations), then one job per (params, first deviation)."""
     deadline = time.time() + time_budget if time_budget else None
+    if params_list:
+        # determinism self-test on the first and the last configuration (in a worker, like every other execution)
+        probe = [(params_list[0], bound)] + ([(params_list[-1], bound)] if len(params_list) > 1 else [])
+        for bad in core.pmap("mc.explore", "determinism_selftest", probe, initargs=(module, fn), jobs=jobs):
+            if bad:
+                raise Nondeterminism("NONDETERMINISM: " + bad)
     total = Stats()
     sigs = {}
     roots = [("root", p, bound, False, None, None, None) for p in params_list]
